@@ -48,7 +48,7 @@ TOKEN_DOMAINS = {
     'Asterisk': lambda r: {'t': 'default', 'cls': 'Asterisk'},
     'InlineComment': lambda r: {'t': 'tok', 'cls': 'InlineComment', 'v': {'t': 'lit', 'v': r.choice(['', 'note', 'x y', 'a;b'])}},
     'PostingFlag': lambda r: {'t': 'tok', 'cls': 'PostingFlag', 'v': {'t': 'lit', 'v': r.choice('*!&?%')}},
-    'TransactionFlag': lambda r: {'t': 'tok', 'cls': 'TransactionFlag', 'v': {'t': 'lit', 'v': r.choice(['*', '!', 'txn', 'P'])}},
+    'TransactionFlag': lambda r: {'t': 'tok', 'cls': 'TransactionFlag', 'v': {'t': 'lit', 'v': r.choice(['*', '!', 'P', '#'])}},
     'Indent': lambda r: {'t': 'tok', 'cls': 'Indent', 'v': {'t': 'lit', 'v': r.choice(['  ', '    ', '\t'])}},
 }
 
